@@ -77,16 +77,37 @@ def gen_program(rnd, length):
             a, b = operand(), operand()
             if a["t"] == "num" and b["t"] == "num":
                 a = {"t": "name", "n": rnd.choice(bound)}
-            op = {"k": "binop", "o": rnd.choice(["+", "-", "*"]), "a": a, "b": b, "dst": rnd.choice(NAMES)}
+            o = rnd.choice(["+", "-", "*", "+", "-", "*", "/"])
+            if o == "/":
+                # A / c ("dividing all its entries by c"; sparse stays sparse): mostly (A * c) / c, which is exact
+                a = {"t": "name", "n": rnd.choice(bound)}
+                b = {"t": "num", "x": c15.num(rnd, "id")}
+                if rnd.random() < 0.6:
+                    b["x"]["v"][0] = rnd.choice([1, -1, 2, -2, 4, 0])
+                if rnd.random() < 0.6 and len(prog) < length - 1 and b["x"]["v"][0] != 0:
+                    mid = rnd.choice(NAMES)
+                    prog.append({"k": "binop", "o": "*", "a": a, "b": b, "dst": mid})
+                    shapes[mid] = shapes[a["n"]]; kinds[mid] = kinds[a["n"]]
+                    a = {"t": "name", "n": mid}
+            op = {"k": "binop", "o": o, "a": a, "b": b, "dst": rnd.choice(NAMES)}
             shapes[op["dst"]] = (2, 2); kinds[op["dst"]] = "dense"
         elif r < 0.88:
             src = rnd.choice(bound)
             b = {"t": "name", "n": rnd.choice(bound)} if rnd.random() < 0.5 else {"t": "num", "x": c15.num(rnd, "idz")}
-            op = {"k": "ibinop", "o": rnd.choice(["+", "-", "*"]), "src": src, "b": b}
+            op = {"k": "ibinop", "o": rnd.choice(["+", "-", "*", "+", "-", "*", "/"]), "src": src, "b": b}
+            if op["o"] == "/":
+                op["b"] = {"t": "num", "x": c15.num(rnd, "id")}
+                if rnd.random() < 0.6:
+                    op["b"]["x"]["v"][0] = rnd.choice([1, -1, 2, -2, 4, 0])
         elif r < 0.96:
             src = rnd.choice(bound)
-            op = {"k": "unary", "u": rnd.choice(["neg", "pos", "copy", "trans", "ctrans"]), "src": src, "dst": rnd.choice(NAMES)}
-            shapes[op["dst"]] = (shapes[src][1], shapes[src][0]); kinds[op["dst"]] = kinds[src]
+            u = rnd.choice(["neg", "pos", "copy", "trans", "ctrans", "abs"])
+            if u == "abs":
+                op = {"k": "abs", "src": src, "dst": rnd.choice(NAMES)}
+                shapes[op["dst"]] = shapes[src]; kinds[op["dst"]] = kinds[src]
+            else:
+                op = {"k": "unary", "u": u, "src": src, "dst": rnd.choice(NAMES)}
+                shapes[op["dst"]] = (shapes[src][1], shapes[src][0]); kinds[op["dst"]] = kinds[src]
         else:
             src = rnd.choice(bound); dst = rnd.choice(NAMES)
             op = {"k": "alias", "src": src, "dst": dst}
@@ -101,8 +122,8 @@ def _cval(v):
 
 def _ok_int(v):
     if isinstance(v, complex):
-        return v.real == int(v.real) and v.imag == int(v.imag)
-    return v == int(v)
+        return c15._isint(v.real) and c15._isint(v.imag)
+    return c15._isint(v)
 
 
 def snap(M):
@@ -164,7 +185,7 @@ def run_program_stream(prog, emit):
                     env[op["src"]][c15._pyindex(op["ix"]), c15._pyindex(op["jx"])] = val
             elif k == "binop":
                 a, b = operand(op["a"]), operand(op["b"])
-                res = a + b if op["o"] == "+" else (a - b if op["o"] == "-" else a * b)
+                res = a + b if op["o"] == "+" else (a - b if op["o"] == "-" else (a / b if op["o"] == "/" else a * b))
                 if op["o"] == "*":
                     for x_, y_ in ((a, b), (b, a)):
                         if isinstance(x_, spmatrix) and not hasattr(y_, "size"):
@@ -181,6 +202,8 @@ def run_program_stream(prog, emit):
                     A += b
                 elif op["o"] == "-":
                     A -= b
+                elif op["o"] == "/":
+                    A /= b
                 else:
                     A *= b
                 if A is not A0:
@@ -193,6 +216,8 @@ def run_program_stream(prog, emit):
                        "ctrans": lambda: A.H}[u]()
                 if isinstance(A, spmatrix):
                     keepnnz = len(A.V)
+            elif k == "abs":
+                res = abs(env[op["src"]])
             elif k == "alias":
                 env[op["dst"]] = env[op["src"]]
             if res is not None:
@@ -216,13 +241,21 @@ def run_program_stream(prog, emit):
         del c15._IDX_LOG[:]
         ev = {"op": c15._clean(op), "out": out, "heap": {n: snap(M) for n, M in env.items()},
               "same": [[a, b] for a in env for b in env if env[a] is env[b]], "idxok": idxok}
+        ev["nonint"] = '"nonint"' in json.dumps(ev["heap"]) or '"nonint"' in json.dumps(out)
         if keepnnz is not None:
             ev["keepnnz"] = keepnnz
         emit(ev)
 
 
 def run_isolated_program(prog, timeout=30):
-    """returns (events, crash) ; crash = None | ("signal", n) | ("hang", None)"""
+    """returns (events, crash) ; crash = None | ("signal", n) | ("hang", None); a silent child is tried once more with five times the limit"""
+    events, crash = _run_program_once(prog, timeout)
+    if crash is not None and crash[0] == "hang":
+        events, crash = _run_program_once(prog, timeout * 5)
+    return events, crash
+
+
+def _run_program_once(prog, timeout):
     r, w = os.pipe()
     pid = os.fork()
     if pid == 0:
@@ -336,9 +369,8 @@ def run(tier, seed, replay=None):
         tr_ = rr["trace"]
         for k_, ev_ in enumerate(tr_):
             if '"nonint"' in json.dumps(ev_["heap"]) or '"nonint"' in json.dumps(ev_["out"]):
-                ck.violation(classify(ev_, "non-integer-value"), "step %d (%s) produced a non-integer value from integer data (garbage / uninitialised memory?)" % (
-                    k_ + 1, json.dumps(ev_["op"])[:160]), {"trace": tr_[max(0, k_ - 2):k_ + 1]})
-                tr_ = tr_[:k_]
+                # legitimate for a division (the model answers "cut" and the trace ends); anywhere else the step is rejected (clause exact-values)
+                tr_ = tr_[:k_ + 1]
                 break
         if tr_:
             traces.append(tr_)
